@@ -6,8 +6,9 @@
   Part 2: the styled rectangle: areas, bounding box, the call list of `draw()`, the pixel list of
           `pixels()` and the pixel map left on a target (EG/Lemmas/StyledRectTranslate.lean,
           EG/Lemmas/PMapTranslate.lean).
-  `translate_mut` is `*self = self.translate(d)` for a value type; the model has no mutation, so
-  `translate_mut = translate` is carried by the oracle (`C07:translate-mut-differs`).
+  `translate_mut` (`self.top_left += by`) is modelled as a field update in EG/Model/TranslateMut.lean
+  and proved equal to `translate` in Props/C07/TranslateMut.lean; that Rust's `&mut` assignment is
+  that update is carried by the oracle (`C07:translate-mut-differs`).
 -/
 import EG.Lemmas.StyledRectTranslate
 namespace EG.C07.Rectangle
@@ -111,7 +112,7 @@ example : drawCalls ⟨some 7, some 9, 1, .inside⟩ ((⟨⟨0, 0⟩, ⟨3, 4⟩
     [.fillSolid ⟨⟨6, -2⟩, ⟨1, 2⟩⟩ 7, .fillSolid ⟨⟨5, -3⟩, ⟨3, 1⟩⟩ 9, .fillSolid ⟨⟨5, 0⟩, ⟨3, 1⟩⟩ 9,
      .fillSolid ⟨⟨5, -2⟩, ⟨1, 2⟩⟩ 9, .fillSolid ⟨⟨7, -2⟩, ⟨1, 2⟩⟩ 9] := by decide
 
--- [V] `translate_mut` equals `translate` (mutation is not modelled): carried by the oracle only
+-- [V] rectangle, `translate_mut`: that Rust's `&mut self` field assignment is the functional field update of the model is language semantics, carried by the oracle only (`C07:translate-mut-differs` compares both methods on the real code); PROVED on the model of the in-place body as the source writes it (EG/Model/TranslateMut.lean), for all inputs: `rectangle_translate_mut` (Props/C07/TranslateMut.lean)
 -- [V] Rust-level parametricity of `draw` in the target type: carried by correspondence + oracle only
 
 end EG.C07.Rectangle
